@@ -50,7 +50,12 @@ def c10_canary(result, task_name):
 
 def gen_fullname(g):
     r = g.r
-    if getattr(g, 'small_space', False):
+    if getattr(g, 'confusable', False):
+        # groups and namespaces drawn from one alphabet: `n::a` next to `x::n:a`, `g:a` next to `g::a`
+        ns = r.choice([[], ['n'], ['g'], ['x', 'n'], ['x'], ['x', 'g']])
+        groups = r.choice([[], [], ['n'], ['g']])
+        name = 'a'
+    elif getattr(g, 'small_space', False):
         ns = r.choice([[], ['n'], ['xn'], ['m', 'n']])
         groups = r.choice([[], [], ['g'], ['ag']])
         name = r.choice(['a', 'a', 'a', 'xa'])
@@ -63,6 +68,7 @@ def gen_fullname(g):
 
 def gen_tasks(g, sofar):
     g.small_space = g.r.random() < 0.7
+    g.confusable = g.r.random() < 0.3
     out = []
     for _ in range(g.r.choice([0, 1, 2, 2, 3, 3, 4])):
         n = gen_fullname(g)
@@ -96,3 +102,64 @@ CONTRACTS = [
         canary='c10_canary', l0=['A-split'],
     ),
 ]
+
+
+# ------------------------------------------------------------------------------------------------
+# the dict-like accessors of a chain: one resolution rule behind `in`, [], get_task  (C10)
+# ------------------------------------------------------------------------------------------------
+from pyvc.prims import all_of, any_of
+
+ATaskU = U('ATask')
+
+
+def resolvable(item, names):
+    """the name denotes exactly one task: a unique match, or a match that is the less-nested form of all matches"""
+    M = [t for t in names if name_matches(item, t, True)]
+    return len(M) == 1 or (len(M) > 1 and any(all(less_nested(c, t) for t in M) for c in M))
+
+
+def find_ret(task_name, tasks, determine_namespace, result):
+    return c10_found(task_name, tasks, determine_namespace, result)
+
+
+def find_raise(task_name, tasks, determine_namespace, raised):
+    return c10_keyerror(task_name, tasks, determine_namespace, raised)
+
+
+FIND = ByContract(ret=Str, post='find_ret', raises=['KeyError'], raise_post='find_raise')
+
+
+def acc_chain():
+    return Obj('taskchain.chain:Chain', tasks=SymDict(Str, ATaskU, 'chain_tasks'))
+
+
+def contains_post(self, item, result):
+    """`name in chain` is exactly "the name resolves" """
+    return result == resolvable(item, self.tasks.keys())
+
+
+def get_post(self, item, result):
+    """chain[name] is the task the name resolves to"""
+    names = self.tasks.keys()
+    return resolvable(item, names) and any(name_matches(item, n, True) and self.tasks[n] == result for n in names)
+
+
+def get_raise(self, item, raised):
+    return raised == 'KeyError' and not resolvable(item, self.tasks.keys())
+
+
+ACCESSOR_CONTRACTS = [
+    Contract(id='C10.contains', target='taskchain.chain:Chain.__contains__', props={'C10': 'decisive'},
+             inputs={'self': acc_chain(), 'item': S(Str, 'item')}, callees={'taskchain.task:_find_task_full_name': FIND},
+             ensures={'same_rule': 'contains_post'}, l0=['A-split', 'A-dict'], searchable=False),
+    Contract(id='C10.get', target='taskchain.chain:Chain.get', props={'C10': 'decisive'},
+             inputs={'self': acc_chain(), 'item': S(Str, 'item'), 'default': Const(None)}, callees={'taskchain.task:_find_task_full_name': FIND},
+             ensures={'same_rule': 'get_post'}, ensures_raise={'unresolved': 'get_raise'}, l0=['A-split', 'A-dict'], searchable=False),
+]
+
+# NOT registered: `C10.contains` (return path) and `C10.get` do not discharge within the budget (two filter-map symbols for the
+# match list, linked only by extensionality); the accessors are covered by the bounded scenario s_name_access.  Set PYVC_ACCESSORS=1
+# to experiment.
+import os as _os
+if _os.environ.get('PYVC_ACCESSORS'):
+    CONTRACTS += ACCESSOR_CONTRACTS
